@@ -195,12 +195,29 @@ class Terms(object):
     def _from_defs(self, func, node, name, ds, env, depth):
         alts = set()
         for d in sorted(ds, key=lambda d: (d.node.id, d.kind)):
-            alts.add(self._def_term(func, d, name, env, depth))
+            alts.add(self._def_term(func, d, name, env, depth, node))
         if len(alts) == 1:
             return next(iter(alts))
         return ("phi", frozenset(alts))
 
-    def _def_term(self, func, d, name, env, depth):
+    def _decided_arm(self, func, d, use_node):
+        """`x = a if c else b` read at use_node: when the must-facts there decide c (and nothing c reads was redefined since
+        the assignment) the value is the corresponding arm."""
+        v = unawait(d.value)
+        if not isinstance(v, ast.IfExp) or use_node is None or d.path:
+            return None
+        df = self.ctx.df(func)
+        from .dataflow import vars_in
+        for k in vars_in(v.test):
+            if df.reaching(use_node, k) != df.reaching_out(d.node, k) and df.reaching(use_node, k) != df.reaching(d.node, k):
+                return None
+        if df.holds(use_node, v.test, True):
+            return v.body
+        if df.holds(use_node, v.test, False):
+            return v.orelse
+        return None
+
+    def _def_term(self, func, d, name, env, depth, use_node=None):
         ctx = self.ctx
         if d.kind == "param":
             if name in env:
@@ -225,7 +242,8 @@ class Terms(object):
         self._guard.add(g)
         try:
             if d.kind == "assign":
-                t = self.term(func, d.node, d.value, env, depth)
+                arm = self._decided_arm(func, d, use_node)
+                t = self.term(func, d.node, arm if arm is not None else d.value, env, depth)
                 for i in d.path:
                     t = self.project(t, i)
                 return t
@@ -375,6 +393,9 @@ class Terms(object):
             return C(x[1] & M32)
         if x[0] == "phi":
             return self.phi(self.mod32(a) for a in x[1])
+        if x[0] == "ite":
+            a, b = self.mod32(x[2]), self.mod32(x[3])
+            return a if a == b else ("ite", x[1], a, b)
         return ("MOD32", x)
 
     def concat(self, parts):
@@ -710,3 +731,15 @@ def lin_sub(a, b):
     for k, v in y.items():
         out[k] = out.get(k, 0) - v
     return {k: v for k, v in out.items() if v}, cx - cy
+
+
+def alts_of(t):
+    """The alternative values of a term: leaves of its phi / ite structure."""
+    if t[0] == "phi":
+        out = set()
+        for a in t[1]:
+            out |= alts_of(a)
+        return out
+    if t[0] == "ite":
+        return alts_of(t[2]) | alts_of(t[3])
+    return {t}
